@@ -16,6 +16,7 @@ import (
 type affEnv struct {
 	reg  *Region              // may be nil
 	vals map[string]ssa.Value // atom -> the value it stands for
+	lens map[string]ssa.Value // atom "len(x)" -> x
 }
 
 func (e *affEnv) resolve(v ssa.Value) ssa.Value {
@@ -159,7 +160,12 @@ func (e *affEnv) lenOf(x ssa.Value, d int) lin {
 		}
 		return e.lenOf(sl.X, d+1).sub(lo)
 	}
-	return atomLin("len(" + e.atom(x) + ")")
+	a := "len(" + e.atom(x) + ")"
+	if e.lens == nil {
+		e.lens = map[string]ssa.Value{}
+	}
+	e.lens[a] = x
+	return atomLin(a)
 }
 
 func (e *affEnv) Of(v ssa.Value) lin { return e.of(v, 0) }
